@@ -126,7 +126,7 @@ def _profile(cfg) -> gg.Profile:
 
 @st.composite
 def cases(draw):
-    r = draw(st.randoms(use_true_random=False))
+    r = core.rng(draw)
     cfg = envs.gen_cfg(r, modes=("strict",))
     cfg["undefined"] = "default"
     prof = _profile(cfg)
